@@ -22,8 +22,15 @@ pub fn unpack_date(pascal_date: [u8;2]) -> chrono::NaiveDateTime {
     let year = 1900 + (date >> 9); // choose to stay in the 20th century (Y2K bug)
     let month = date & 15;
     let day = (date >> 4) & 31;
-    return chrono::NaiveDate::from_ymd_opt(year as i32,month as u32,day as u32).unwrap()
-        .and_hms_opt(0, 0, 0).unwrap();
+    let ymd = match chrono::NaiveDate::from_ymd_opt(year as i32,month as u32,day as u32) {
+        Some(ymd) => ymd,
+        None => {
+            // corrupted directory, show the earliest date rather than stopping
+            log::warn!("invalid date {}/{}/{}",year,month,day);
+            chrono::NaiveDate::from_ymd_opt(1900,1,1).unwrap()
+        }
+    };
+    return ymd.and_hms_opt(0, 0, 0).unwrap();
 }
 
 /// This will accept lower case; case will be automatically converted as appropriate
